@@ -50,7 +50,15 @@ func NewPriorityQueue(lessFn common_info.LessFn, maxQueueSize int) *PriorityQueu
 func (q *PriorityQueue) Push(it interface{}) {
 	heap.Push(&q.queue, it)
 	if q.maxQueueSize != QueueCapacityInfinite && q.queue.Len() > q.maxQueueSize {
-		heap.Remove(&q.queue, q.maxQueueSize)
+		// drop the element that would be popped last. It is one of the leaves of the heap, but not necessarily the
+		// one stored at the last index.
+		last := q.queue.Len() / 2
+		for i := last + 1; i < q.queue.Len(); i++ {
+			if q.queue.Less(last, i) {
+				last = i
+			}
+		}
+		heap.Remove(&q.queue, last)
 	}
 }
 
